@@ -258,7 +258,8 @@ SPEC = {
         "cond_parse_eval_closed", "cond_parse_tokens", "cond_parse_unambiguous", "cond_rejects_illformed",
         "total_of_no_operands", "total_under_literal_macros",
         "literalMacros_define", "literalMacros_undef", "literalMacros_nil",
-        "include_shares_chain", "if_closed_by_includers_endif_accepted", "else_of_other_file_accepted"]],
+        "include_shares_chain", "if_closed_by_includers_endif_accepted", "else_of_other_file_accepted",
+        "defined_is_protected", "cond_eval_composed"]],
     "harness": "c11",
     "nontrivial": nontrivial,
     "finding_key": finding_key,
